@@ -1,4 +1,5 @@
 import FCA.Proofs.Validate
+import FCA.Model.Render
 /-
 Property C19 — ill-formed input raises `ValueError`; accepted input is represented faithfully.
 (`Data.__init__` / `Data.fromdict` of `concepts/contexts.py`, model: `ctorAccepts`, `ctxOfTriple`,
@@ -262,6 +263,93 @@ example : (fromdictCheck ⟨some [.str "a", .str "b"], some [.str "x", .str "y"]
 example : (fromdictCheck ⟨some [.str "a", .str "a"], some [.str "x", .str "y"], some [[0], [1, 0]], .none⟩ false).toOption = none := by decide
 example : (fromdictCheck ⟨some [.str "a", .str "x"], some [.str "x", .str "y"], some [[0], [1, 0]], .none⟩ false).toOption = none := by decide
 
+/-! ### composites -/
+
+/-- a constructed context has at least one object and one property (the hypothesis `0 < K.n` of C16) -/
+theorem C19_nonempty {os ps : List Name} {bools : List (List Bool)} {K : Ctx}
+    (h : ctxOfTriple os ps bools = .ok K) : 0 < K.n ∧ 0 < K.m := by
+  obtain ⟨ht, rfl⟩ := ((C19_ctxOfTriple_iff os ps bools).1 K).mp h
+  obtain ⟨ho, _, hp, _⟩ := ht
+  exact ⟨List.length_pos_iff.mpr ho, List.length_pos_iff.mpr hp⟩
+
+/-- what `fromdict` accepts (the validation prefix, through the constructor call) is accepted by the
+constructor and gives a well-formed, non-empty index-level context of the stored sizes -/
+theorem C19_fromdict_WF {d : SDict} {req : Bool} {os ps : List Name} {bools : List (List Bool)}
+    (h : fromdictCheck d req = .ok (os, ps, bools)) :
+    ∃ K, ctxOfTriple os ps bools = .ok K ∧ K.WF ∧ K.n = os.length ∧ K.m = ps.length ∧
+      0 < K.n ∧ 0 < K.m := by
+  obtain ⟨_, _, ht, _⟩ := C19_fromdict_faithful h
+  obtain ⟨K, hK⟩ := (C19_ctxOfTriple_ok_iff os ps bools).mpr ht
+  obtain ⟨h1, h2, _⟩ := C19_faithful hK
+  exact ⟨K, hK, C19_establishes_WF hK, h1, h2, C19_nonempty hK⟩
+
+/-- the context with its names: `Context(objects, properties, bools)` succeeds under the same
+condition, `.objects` / `.properties` are the given names, unchanged and in the given order, one per
+row / column of the table, and the table is the one of `ctxOfTriple` -/
+theorem C19_names_reproduced (os ps : List Name) (bools : List (List Bool)) :
+    ((∃ C, lctxOfTriple os ps bools = .ok C) ↔ TripleOk os ps bools) ∧
+    (∀ C, lctxOfTriple os ps bools = .ok C →
+      C.objs = os ∧ C.props = ps ∧ ctxOfTriple os ps bools = .ok C.K ∧
+      C.K.n = C.objs.length ∧ C.K.m = C.props.length ∧ C.objs.Nodup ∧ C.props.Nodup ∧
+      (∀ x, x ∈ C.objs → x ∉ C.props) ∧ C.K.WF) ∧
+    (∀ e, lctxOfTriple os ps bools = .error e → e = .valueError ∧ ¬ TripleOk os ps bools) := by
+  unfold lctxOfTriple
+  cases hK : ctxOfTriple os ps bools with
+  | ok K =>
+    have ht := (((C19_ctxOfTriple_iff os ps bools).1 K).mp hK).1
+    obtain ⟨h1, h2, _⟩ := C19_faithful hK
+    refine ⟨⟨fun _ => ht, fun _ => ⟨_, rfl⟩⟩, ?_, ?_⟩
+    · intro C hC
+      injection hC with hC
+      subst hC
+      exact ⟨rfl, rfl, rfl, h1, h2, ht.2.1, ht.2.2.2.1, ht.2.2.2.2.1, C19_establishes_WF hK⟩
+    · intro e he; cases he
+  | error e =>
+    have hv := (C19_ctxOfTriple_iff os ps bools).2.2 e hK
+    subst hv
+    have hnot := (C19_ctxOfTriple_iff os ps bools).2.1.mp hK
+    refine ⟨⟨?_, fun ht => absurd ht hnot⟩, ?_, ?_⟩
+    · rintro ⟨C, hC⟩; cases hC
+    · intro C hC; cases hC
+    · intro e he
+      injection he with he
+      exact ⟨he.symm, hnot⟩
+
+/-- `fromdict` reproduces the stored names: the result carries exactly the stored strings -/
+theorem C19_fromdict_names (d : SDict) (req : Bool) :
+    (∀ C, lctxOfDict d req = .ok C →
+      d.objects = some (C.objs.map SName.str) ∧ d.properties = some (C.props.map SName.str) ∧
+      C.K.WF ∧ C.K.n = C.objs.length ∧ C.K.m = C.props.length) ∧
+    (∀ e, lctxOfDict d req = .error e → e = .valueError) ∧
+    ((∃ C, lctxOfDict d req = .ok C) ↔ ∃ res, fromdictCheck d req = .ok res) := by
+  unfold lctxOfDict
+  cases hres : fromdictCheck d req with
+  | error e =>
+    have := C19_fromdict_error d req e hres
+    subst this
+    refine ⟨fun C hC => (by cases hC), fun e he => (by injection he with he; exact he.symm), ?_⟩
+    constructor
+    · rintro ⟨C, hC⟩; cases hC
+    · rintro ⟨res, hr⟩; cases hr
+  | ok res =>
+    obtain ⟨os, ps, bools⟩ := res
+    obtain ⟨K, hK, hWF, h1, h2, _⟩ := C19_fromdict_WF hres
+    obtain ⟨_, ho, hp, _⟩ := (C19_fromdict_iff d req os ps bools).mp hres
+    have hl : lctxOfTriple os ps bools = .ok ⟨os, ps, K⟩ := by unfold lctxOfTriple; rw [hK]
+    simp only [hl]
+    refine ⟨?_, fun e he => (by cases he), ⟨fun _ => ⟨_, rfl⟩, fun _ => ⟨_, rfl⟩⟩⟩
+    intro C hC
+    injection hC with hC
+    subst hC
+    exact ⟨ho, hp, hWF, h1, h2⟩
+
+example : (lctxOfTriple ["a", "b"] ["x", "y", "z"] [[true, false, true], [false, false, true]]).toOption.map
+    (fun C => (C.objs, C.props, C.K.n, C.K.m, C.K.rows)) = some (["a", "b"], ["x", "y", "z"], 2, 3, #[5, 4]) := by
+  decide
+example : (lctxOfDict ⟨some [.str "a", .str "b"], some [.str "x", .str "y"], some [[0], [1, 0]], .none⟩ false).toOption.map
+    (fun C => (C.objs, C.props, C.K.rows)) = some (["a", "b"], ["x", "y"], #[1, 3]) := by decide
+example : (lctxOfTriple ["a", "a"] ["x"] [[true], [true]]).toOption.isNone = true := by decide
+
 end FCA
 
 #print axioms FCA.C19_hasDup_iff
@@ -275,3 +363,7 @@ end FCA
 #print axioms FCA.C19_fromdict_accepts_iff
 #print axioms FCA.C19_fromdict_iff
 #print axioms FCA.C19_fromdict_faithful
+#print axioms FCA.C19_nonempty
+#print axioms FCA.C19_fromdict_WF
+#print axioms FCA.C19_names_reproduced
+#print axioms FCA.C19_fromdict_names
